@@ -78,7 +78,8 @@ pub fn battery(d: &mut Ddnnf, tt: &TT, rng: &mut Rng) -> Vec<(String, String, St
         chk("card_of_each_feature".into(), got, want.join(";"));
     }
     // t-wise, plain and fitness-guided, t = 2 (C09): only models, every valid pair covered
-    if tt.count() > 0 && n >= 2 && n <= 8 {
+    // (the three costlier groups below run on a third of the calls each: the battery is called after every step of exhaustive command trees)
+    if tt.count() > 0 && n >= 2 && n <= 8 && rng.chance(0.34) {
         for line in [String::from("t-wise l 2"), format!("t-wise l 2 f {}", (0..n).map(|i| ((i as i32 % 3) - 1).to_string()).collect::<Vec<_>>().join(" "))] {
             let l2 = line.clone();
             let got = guarded(|| d.handle_stream_msg(&l2)).map(|reply| match crate::twise_props::parse_sample(&reply) {
@@ -88,7 +89,7 @@ pub fn battery(d: &mut Ddnnf, tt: &TT, rng: &mut Rng) -> Vec<(String, String, St
         }
     }
     // the stream forms of count / sat / core / enum (they go through their own argument handling and caches)
-    if tt.count() > 0 && n >= 1 {
+    if tt.count() > 0 && n >= 1 && rng.chance(0.34) {
         let v = 1 + rng.below(n as usize) as i32; let a = if rng.chance(0.5) { v } else { -v };
         chk(format!("stream: count a {a}"), guarded(|| d.handle_stream_msg(&format!("count a {a}"))), tt.count_with(&[a]).to_string());
         chk(format!("stream: sat a {a}"), guarded(|| d.handle_stream_msg(&format!("sat a {a}"))), (tt.count_with(&[a]) > 0).to_string());
@@ -112,7 +113,7 @@ pub fn battery(d: &mut Ddnnf, tt: &TT, rng: &mut Rng) -> Vec<(String, String, St
         chk(format!("count a -{v} after inspecting the marking of {v}"), guarded(|| d.execute_query(&[-v]).to_string()), tt.count_with(&[-v]).to_string());
     }
     // save and reload: the reloaded model counts like the truth table
-    if tt.count() > 0 && n <= 10 {
+    if tt.count() > 0 && n <= 10 && rng.chance(0.34) {
         let path = std::env::temp_dir().join(format!("vh_battery_{}_{}.nnf", std::process::id(), rng.below(1 << 30)));
         let p2 = path.clone();
         let got = guarded(|| {
